@@ -367,7 +367,8 @@ func (m *M) SSetInt(r int, v *big.Int) {
 	m.emit("SSetInt", kv{"r", r + 1}, kv{"v", be32(v)})
 }
 
-func (m *M) Order() { m.emit("Order", kv{"ret", secp256k1.Order()}) }
+func (m *M) Order()       { m.emit("Order", kv{"ret", secp256k1.Order()}) }
+func (m *M) Ciphersuite() { m.emit("Ciphersuite", kv{"ret", []byte(secp256k1.Ciphersuite())}) }
 func (m *M) Lengths() {
 	m.emit("Lengths", kv{"scalar", secp256k1.ScalarLength()}, kv{"element", secp256k1.ElementLength()})
 }
